@@ -350,7 +350,7 @@ def run_case(case):
         return res
     for v in res["violations"]:
         v["replay_case"] = {"plan": dict(plan, commands=None) if plan.get("commands") is None else plan}
-    le = info["hygiene"].loop_errors
+    le = info["hygiene"].serious_loop_errors()
     if le:
         res["violations"].append({"key": "exception-reached-loop", "msg": f"{le[:2]}"})
     res["sample"] = {"plan": {k: v for k, v in plan.items() if k != "commands"}, "transcript": res.pop("transcript")[:40]}
